@@ -292,7 +292,7 @@ func c06Sponge(c *Ctx) {
 			if e.Panic {
 				if name == "Absorb" {
 					es := plainEdges(edgesMatching(b, "bin<!=>(load(faddr<#2>(p0)), 0)"))
-					r.Check(mustPass(fn, e.Instr.Block(), es), "C06.error-before-effect.Absorb-panic", c.ipos(e.Instr), "Absorb panics only when called after a squeeze (direction != Absorbing), before any state change")
+					r.Check(exitMustPass(fn, e, es), "C06.error-before-effect.Absorb-panic", c.ipos(e.Instr), "Absorb panics only when called after a squeeze (direction != Absorbing), before any state change")
 				} else {
 					r.Viol("C06.error-before-effect.Squeeze-panic", c.ipos(e.Instr), "explicit panic in Squeeze")
 				}
@@ -354,7 +354,7 @@ func c06Sponge(c *Ctx) {
 								continue
 							}
 							rets++
-							okRet = okRet && mustPass(h, e.Instr.Block(), x2)
+							okRet = okRet && exitMustPass(h, e, x2)
 						}
 						if len(l2) == 1 && len(x2) == 1 && sl && sh && rets == 1 && okRet {
 							r.Fn(ana.ShortFunc(h))
